@@ -90,22 +90,28 @@ DictPut(d, e) ==
 (* ================================================================== writer (code shaped) *)
 ImplMultiline(v) == Cat3(<<"nl", "semi">>, v, <<"nl", "semi", "nl">>)
 Wrap(q, v) == Cat3(<<q>>, v, <<q>>)
-\* _escape: nine branches, in the order of the code
+\* _escape: ten branches, in the order of the code as it is after the repairs
+\*   0540e6c2  the leading-'_' branch stands behind the two quote branches (was: before them)
+\*   090058e5  new branch: a value starting with # ; $ [ ] or a reserved word is quoted
+\* (the upper-case spellings of the reserved words that the code also quotes are outside the
+\*  token alphabet)
+LineStartTok == {"hash", "semi", "dollar", "lbr", "rbr"} \cup ResTok
 ImplEscape(v) ==
   IF Has(v, "nl") THEN ImplMultiline(v)
   ELSE IF Has(v, "sq") /\ Has(v, "dq") THEN ImplMultiline(v)
   ELSE IF v = <<>> THEN <<"sq", "sq">>
-  ELSE IF v[1] = "us" THEN Wrap("sq", v)
   ELSE IF Has(v, "sq") THEN Wrap("dq", v)
   ELSE IF Has(v, "dq") THEN Wrap("sq", v)
+  ELSE IF v[1] = "us" THEN Wrap("sq", v)
+  ELSE IF v[1] \in LineStartTok THEN Wrap("sq", v)
   ELSE IF Has(v, "sp") THEN Wrap("sq", v)
   ELSE IF Has(v, "tab") THEN Wrap("sq", v)
   ELSE v
 EscapeStyle(v) ==
   IF Has(v, "nl") \/ (Has(v, "sq") /\ Has(v, "dq")) THEN "text"
-  ELSE IF v = <<>> \/ v[1] = "us" THEN "sq"
+  ELSE IF v = <<>> THEN "sq"
   ELSE IF Has(v, "sq") THEN "dq"
-  ELSE IF Has(v, "dq") \/ Has(v, "sp") \/ Has(v, "tab") THEN "sq"
+  ELSE IF Has(v, "dq") \/ v[1] = "us" \/ v[1] \in LineStartTok \/ Has(v, "sp") \/ Has(v, "tab") THEN "sq"
   ELSE "bare"
 
 LJust(s, n) == s \o Spaces(IF n > CharLen(s) THEN n - CharLen(s) ELSE 0)
@@ -307,6 +313,10 @@ StartsLine(c, i, j) == IsLooped(c) /\ j = 1
 Continues(c, i, j)  == IsLooped(c) /\ j > 1 /\ TextAt(c, i, j - 1)
 FirstTokAt(c, i, j, T) == BareAt(c, i, j) /\ CellStr(c, i, j)[1] \in T
 
+\* The three line-start classes were repaired by 090058e5 (_escape quotes values starting with
+\* # ; $ [ ] or a reserved word): such a value is never written bare (EscapeStyle), so FirstTokAt
+\* is FALSE and the classes are empty.  The definitions are kept: they describe what comes back
+\* if the branch of _escape is lost.
 \* '#...' in column 1 of a loop: the whole row is skipped as a comment
 KB_HashAtLineStart(c) == \E i \in DOMAIN c.cols[1].cells : StartsLine(c, i, 1) /\ FirstTokAt(c, i, 1, {"hash"})
 \* ';...' at a line start or after a text field: taken for a text-field delimiter
@@ -329,7 +339,10 @@ KB_TextField(c) == \E j \in DOMAIN c.cols : \E i \in DOMAIN c.cols[j].cells :
 
 \* _escape tests the leading '_' before the quote characters: '_it's ok' is wrapped in the
 \* quote it contains (any position, single-row or looped)
-KB_UnderscoreQuoteValue(v) == /\ v # <<>> /\ v[1] = "us" /\ Has(v, "sq") /\ Has(v, "sp")
+\* Repaired by 0540e6c2 (quote branches first): the class is empty (leading FALSE); the rest of
+\* the definition says which values were affected.
+KB_UnderscoreQuoteValue(v) == /\ FALSE
+                              /\ v # <<>> /\ v[1] = "us" /\ Has(v, "sq") /\ Has(v, "sp")
                               /\ ~Has(v, "dq") /\ ~Has(v, "nl")
 KB_UnderscoreQuote(c) == \E j \in DOMAIN c.cols : \E i \in DOMAIN c.cols[j].cells :
                             KB_UnderscoreQuoteValue(CellStr(c, i, j))
